@@ -115,15 +115,9 @@ theorem splitOn_endcell : ("`endcelldefine".splitOn " ") = ["`endcelldefine"] :=
   simp only [show (" " == "") = false by decide, Bool.false_eq_true, if_false]
   repeat (rw [String.splitOnAux]; simp (config := {decide := true}))
 
-theorem firstWord_cell : firstWord "`celldefine" = "`celldefine" := by
-  unfold firstWord
-  rw [splitOn_cell]
-  exact strip_plain "`celldefine" (by decide +kernel) (by decide +kernel)
+theorem firstWord_cell : firstWord "`celldefine" = "`celldefine" := by decide +kernel
 
-theorem firstWord_endcell : firstWord "`endcelldefine" = "`endcelldefine" := by
-  unfold firstWord
-  rw [splitOn_endcell]
-  exact strip_plain "`endcelldefine" (by decide +kernel) (by decide +kernel)
+theorem firstWord_endcell : firstWord "`endcelldefine" = "`endcelldefine" := by decide +kernel
 
 /-- tokens the preprocessing keeps: no comment, and no directive other than the two `celldefine` ones -/
 def keepTok (t : String) : Bool :=
